@@ -34,6 +34,7 @@ Proof.
     + rewrite Hq1 in Hin by exact Hne. rewrite get_set_other by exact Hne. exact (i_qwf _ I _ _ Hin).
   - exact Hnd.
   - exact (i_height _ I).
+  - exact (i_seq _ I).
 Qed.
 
 (** the queue is unchanged and the pool keeps its end height *)
